@@ -258,3 +258,24 @@ impl Node {
         })
     }
 }
+
+/// Build-time configuration of the stack under test (`SMOLTCP_*` environment variables consumed by
+/// /repo/build.rs); the harness is built in a separate target directory per variant, with the same variables.
+pub fn cfg_value(name: &str, default: usize) -> usize {
+    let v = match name {
+        "DNS_MAX_SERVER_COUNT" => option_env!("SMOLTCP_DNS_MAX_SERVER_COUNT"),
+        "REASSEMBLY_BUFFER_COUNT" => option_env!("SMOLTCP_REASSEMBLY_BUFFER_COUNT"),
+        "IFACE_NEIGHBOR_CACHE_COUNT" => option_env!("SMOLTCP_IFACE_NEIGHBOR_CACHE_COUNT"),
+        "IFACE_MAX_ADDR_COUNT" => option_env!("SMOLTCP_IFACE_MAX_ADDR_COUNT"),
+        _ => None,
+    };
+    v.and_then(|x| x.parse().ok()).unwrap_or(default)
+}
+
+pub fn build_variant() -> &'static str {
+    if option_env!("SMOLTCP_DNS_MAX_SERVER_COUNT").is_some() {
+        "wide (SMOLTCP_* overrides: more addresses, DNS servers and results, reassembly slots, assembler segments; 3 neighbour-cache slots)"
+    } else {
+        "shipped (all SMOLTCP_* defaults)"
+    }
+}
